@@ -7,6 +7,7 @@ import (
 	"sync"
 	"sync/atomic"
 	"testing"
+	"time"
 
 	goat "github.com/avos-io/goat"
 	"pgregory.net/rapid"
@@ -21,23 +22,125 @@ import (
 // the other properties' oracles are not evaluated here.
 
 type C15Case struct {
-	Family string    `json:"family"`
-	Yield  []byte    `json:"yield"`
-	C01    *C01Case  `json:"c01,omitempty"`
-	Conv   *ConvCase `json:"conv,omitempty"`
-	C07    *C07Case  `json:"c07,omitempty"`
-	C09    *C09Case  `json:"c09,omitempty"`
-	C10    *C10Case  `json:"c10,omitempty"`
-	C11    *C11Case  `json:"c11,omitempty"`
-	C16    *C16Case  `json:"c16,omitempty"`
-	C17    *C17Case  `json:"c17,omitempty"`
-	C18    *C18Case  `json:"c18,omitempty"`
-	C20    *C20Case  `json:"c20,omitempty"`
-	Storm  *C18Storm `json:"c18storm,omitempty"`
-	Send   *C15Send  `json:"sendstorm,omitempty"`
-	Burst  *C16Burst `json:"c16burst,omitempty"`
-	Net    *C01Net   `json:"c01net,omitempty"`
-	Conc   *C19Conc  `json:"c19conc,omitempty"`
+	Family string     `json:"family"`
+	Yield  []byte     `json:"yield"`
+	C01    *C01Case   `json:"c01,omitempty"`
+	Conv   *ConvCase  `json:"conv,omitempty"`
+	C07    *C07Case   `json:"c07,omitempty"`
+	C09    *C09Case   `json:"c09,omitempty"`
+	C10    *C10Case   `json:"c10,omitempty"`
+	C11    *C11Case   `json:"c11,omitempty"`
+	C16    *C16Case   `json:"c16,omitempty"`
+	C17    *C17Case   `json:"c17,omitempty"`
+	C18    *C18Case   `json:"c18,omitempty"`
+	C20    *C20Case   `json:"c20,omitempty"`
+	Storm  *C18Storm  `json:"c18storm,omitempty"`
+	Send   *C15Send   `json:"sendstorm,omitempty"`
+	Burst  *C16Burst  `json:"c16burst,omitempty"`
+	Net    *C01Net    `json:"c01net,omitempty"`
+	Duplex *C15Duplex `json:"duplex,omitempty"`
+	Conc   *C19Conc   `json:"c19conc,omitempty"`
+}
+
+// C15Duplex: handlers that receive in one goroutine and send in another (as the API allows), callers likewise; in the
+// middle of the traffic the streams end abruptly: the caller cancels or runs into its deadline, the server is stopped,
+// or the server's transport read fails.
+type C15Duplex struct {
+	Streams int    `json:"streams"`
+	End     string `json:"end"`
+	Ser     bool   `json:"ser"`
+}
+
+func execC15Duplex(t *testing.T, c C15Duplex) (v Verdict) {
+	res := kit.Bubble(t, func() {
+		svc := kit.NewSvc()
+		svc.Stream("d", true, true, func(s grpcServerStream) error {
+			done := make(chan struct{})
+			go func() {
+				defer close(done)
+				for k := 0; k < 400; k++ {
+					if kit.SendBytes(s, []byte{byte(k)}) != nil {
+						return
+					}
+				}
+			}()
+			for {
+				if _, err := kit.RecvBytes(s); err != nil {
+					break
+				}
+			}
+			<-done
+			return nil
+		})
+		w := kit.NewWorld(kit.Topo{Kind: "direct", Serialize: c.Ser, Clients: 1}, svc, nil, nil)
+		var wg sync.WaitGroup
+		cancels := make([]context.CancelFunc, c.Streams)
+		for i := 0; i < c.Streams; i++ {
+			i := i
+			ctx, cancel := context.WithCancel(context.Background())
+			if c.End == "deadline" {
+				ctx, cancel = context.WithTimeout(context.Background(), 5*time.Millisecond)
+			}
+			cancels[i] = cancel
+			wg.Add(1)
+			go func() {
+				defer wg.Done()
+				cs, err := w.Conn(0).NewStream(ctx, kit.StreamDescFor(kit.KindBidi), kit.FullMethod("d"))
+				if err != nil {
+					return
+				}
+				sdone := make(chan struct{})
+				go func() {
+					defer close(sdone)
+					for k := 0; k < 400; k++ {
+						if kit.SendBytes(cs, []byte{byte(k)}) != nil {
+							return
+						}
+					}
+				}()
+				for {
+					if _, err := kit.RecvBytes(cs); err != nil {
+						break
+					}
+				}
+				<-sdone
+			}()
+		}
+		for k := 0; k < 200; k++ {
+			runtime.Gosched() // traffic flows in both directions meanwhile (no settle: both sides are busy)
+		}
+		switch c.End {
+		case "cancel":
+			for _, f := range cancels {
+				f()
+			}
+		case "deadline":
+			time.Sleep(10 * time.Millisecond)
+		case "stop":
+			w.Server.Stop()
+		case "readfail":
+			w.Links[0].B.FailReads(nil)
+		}
+		for _, f := range cancels {
+			defer f()
+		}
+		wgDone := make(chan struct{})
+		go func() { wg.Wait(); close(wgDone) }()
+		select {
+		case <-wgDone:
+		case <-time.After(time.Hour):
+		}
+		for _, f := range cancels {
+			f()
+		}
+		w.Shutdown()
+		kit.Settle()
+	})
+	if res.Panic != nil {
+		v.failf("panic: %v\n%s", res.Panic, res.Stack)
+	}
+	v.Info = kit.CaseInfo{Labels: []string{"duplex", "duplex.end=" + c.End}, NonTrivial: true, Key: fmt.Sprintf("%+v", c), Sample: c}
+	return
 }
 
 // C15Send: streams that keep sending while the connection's write side and read side fail in the same instant.
@@ -70,7 +173,7 @@ func execC15Send(t *testing.T, c C15Send) (v Verdict) {
 				if err != nil {
 					return
 				}
-				for k := 0; k < 10000; k++ {
+				for k := 0; k < 400; k++ {
 					select {
 					case <-stop:
 						return
@@ -86,7 +189,7 @@ func execC15Send(t *testing.T, c C15Send) (v Verdict) {
 			wg.Add(1)
 			go func() {
 				defer wg.Done()
-				for k := 0; k < 10000; k++ {
+				for k := 0; k < 400; k++ {
 					select {
 					case <-stop:
 						return
@@ -119,7 +222,7 @@ func execC15Send(t *testing.T, c C15Send) (v Verdict) {
 	return
 }
 
-var c15Families = []string{"c01", "c02", "c02", "c03", "c04", "c07", "c09", "c10", "c11", "c16", "c16rpc", "c17", "c18", "c18rpc", "c18storm", "c20", "sendstorm", "c16burst", "c01net", "c19conc"}
+var c15Families = []string{"c01", "c02", "c02", "c03", "c04", "c07", "c09", "c10", "c11", "c16", "c16rpc", "c17", "c18", "c18rpc", "c18storm", "c20", "sendstorm", "c16burst", "c01net", "c19conc", "duplex", "duplex"}
 
 func genC15(t *rapid.T) C15Case {
 	c := C15Case{Family: rapid.SampledFrom(c15Families).Draw(t, "family"), Yield: rapid.SliceOfN(rapid.Byte(), 1, 16).Draw(t, "yield")}
@@ -186,6 +289,8 @@ func genC15(t *rapid.T) C15Case {
 	case "c16burst":
 		x := genC16Burst(t) // more than the proxy's per-destination buffer outstanding: the overflow path runs
 		c.Burst = &x
+	case "duplex":
+		c.Duplex = &C15Duplex{Streams: rapid.IntRange(1, 4).Draw(t, "streams"), End: rapid.SampledFrom([]string{"cancel", "deadline", "stop", "readfail"}).Draw(t, "end"), Ser: rapid.Bool().Draw(t, "ser")}
 	case "c01net":
 		x := genC01Net(t) // concurrent calls on a ClientConn over the shipped network transports (real sockets, real time)
 		c.Net = &x
@@ -241,6 +346,8 @@ func execC15(t *testing.T, c C15Case) (v Verdict) {
 		inner = execC18Storm(t, *c.Storm)
 	case "c16burst":
 		inner = execC15Burst(t, *c.Burst)
+	case "duplex":
+		inner = execC15Duplex(t, *c.Duplex)
 	case "c01net":
 		inner = execC01Net(t, *c.Net)
 	case "c19conc":
